@@ -1,6 +1,7 @@
 import os, sys
 sys.path.insert(0, os.path.join(os.path.dirname(os.path.abspath(__file__)), "..", "common"))
 import cxx_specs as XS
+from imports import imported
 
 PROPERTY = "C02"
 LEVEL = "proof"
@@ -17,4 +18,8 @@ OBLIGATIONS = [
      "incdirs": INC, "entry": "h_initialize", "unwind": 17, "expect_classes": ["assertion"], "expect_min": 10},
     {"name": "hash_driver_follows_spec_chapter_2", "files": [DRV, "@suites/common/harness_driver.c"], "incdirs": INC,
      "defines": ['RXV_CONTRACTS_H="decls_driver.h"'], "entry": "h_single", "unwind": 10, "expect_classes": ["assertion"], "expect_min": 10},
+    # the Blake2b framing the driver's stand-ins rely on (contracts of C11): the two loop-free cases of update, and final
+    imported("C11", "update_arith_contract_input_fits_buffer", "blake2b_update_buffers_input_that_fits"),
+    imported("C11", "update_arith_contract_one_block_completed", "blake2b_update_compresses_exactly_one_completed_block"),
+    imported("C11", "final_contract", "blake2b_final_pads_and_flags_the_last_block"),
 ]
